@@ -35,13 +35,13 @@ impl Request {
 }
 
 // `trait Transform` with a specification function naming what each implementation computes (trait-level spec; the individual
-// transformers other than Slice are thin wrappers over heck / std and are not under contract)
+// transformers' bodies are extracted below; Slice::transform is verified in unit misc)
 pub trait Transform {
     spec fn tr(&self, s: Seq<char>) -> Seq<char>;
     fn transform(&self, str: String) -> (r: String) ensures r@ == self.tr(str@);
 }
 //@@ item src/api/transformer.rs :: struct Transformer
-// the individual transformers: heck / std wrappers are NOT under contract (uninterpreted functions of the input); Replace / Slice carry
+// the individual transformers: the library functions they wrap (heck / std) are uninterpreted functions of the input; Replace / Slice carry
 // their parameters
 pub uninterp spec fn camel(s: Seq<char>) -> Seq<char>;
 pub uninterp spec fn kebab(s: Seq<char>) -> Seq<char>;
@@ -57,12 +57,64 @@ pub uninterp spec fn sliced(s: Seq<char>, from: usize, to: Option<usize>) -> Seq
 //@@ item src/marker/transformer/uppercase.rs :: struct Uppercase
 //@@ item src/marker/transformer/replace.rs :: struct Replace
 //@@ item src/marker/transformer/slice.rs :: struct Slice
-impl Transform for Camelize { open spec fn tr(&self, s: Seq<char>) -> Seq<char> { camel(s) } #[verifier::external_body] fn transform(&self, str: String) -> (r: String) { unimplemented!() } }
-impl Transform for Dasherize { open spec fn tr(&self, s: Seq<char>) -> Seq<char> { kebab(s) } #[verifier::external_body] fn transform(&self, str: String) -> (r: String) { unimplemented!() } }
-impl Transform for Lowercase { open spec fn tr(&self, s: Seq<char>) -> Seq<char> { lowerc(s) } #[verifier::external_body] fn transform(&self, str: String) -> (r: String) { unimplemented!() } }
-impl Transform for Underscorize { open spec fn tr(&self, s: Seq<char>) -> Seq<char> { snake(s) } #[verifier::external_body] fn transform(&self, str: String) -> (r: String) { unimplemented!() } }
-impl Transform for Uppercase { open spec fn tr(&self, s: Seq<char>) -> Seq<char> { upperc(s) } #[verifier::external_body] fn transform(&self, str: String) -> (r: String) { unimplemented!() } }
-impl Transform for Replace { open spec fn tr(&self, s: Seq<char>) -> Seq<char> { replaced(s, self.something@, self.with@) } #[verifier::external_body] fn transform(&self, str: String) -> (r: String) { unimplemented!() } }
+// std / heck case functions: ASSUMED specifications, one uninterpreted function per library function (so two different library functions
+// are never taken for the same mapping); the transformers' own bodies are extracted and verified against the mapping their name states
+pub uninterp spec fn ascii_lowerc(s: Seq<char>) -> Seq<char>;
+pub uninterp spec fn ascii_upperc(s: Seq<char>) -> Seq<char>;
+pub uninterp spec fn upper_camel(s: Seq<char>) -> Seq<char>;
+pub uninterp spec fn shouty_snake(s: Seq<char>) -> Seq<char>;
+pub uninterp spec fn title_case(s: Seq<char>) -> Seq<char>;
+pub assume_specification [str::to_lowercase] (s: &str) -> (r: std::string::String) ensures r@ == lowerc(s@);
+pub assume_specification [str::to_uppercase] (s: &str) -> (r: std::string::String) ensures r@ == upperc(s@);
+pub assume_specification [str::to_ascii_lowercase] (s: &str) -> (r: std::string::String) ensures r@ == ascii_lowerc(s@);
+pub assume_specification [str::to_ascii_uppercase] (s: &str) -> (r: std::string::String) ensures r@ == ascii_upperc(s@);
+// R8 outline (str::replace is generic over the unstable Pattern trait; no assume_specification can name it): ASSUMED summary
+#[verifier::external_body] pub fn outl_replace_tr(s: &String, from: &str, to: &str) -> (r: String) ensures r@ == replaced(s@, from@, to@) { /* verbatim: str.replace(self.something.as_str(), self.with.as_str()) */ s.replace(from, to) }
+// SHIM of the heck case-conversion traits (ToLowerCamelCase, ToKebabCase, ToSnakeCase, ...), implemented for String
+pub trait HeckCase {
+    spec fn hv(&self) -> Seq<char>;
+    fn to_lower_camel_case(&self) -> (r: String) ensures r@ == camel(self.hv());
+    fn to_upper_camel_case(&self) -> (r: String) ensures r@ == upper_camel(self.hv());
+    fn to_kebab_case(&self) -> (r: String) ensures r@ == kebab(self.hv());
+    fn to_snake_case(&self) -> (r: String) ensures r@ == snake(self.hv());
+    fn to_shouty_snake_case(&self) -> (r: String) ensures r@ == shouty_snake(self.hv());
+    fn to_title_case(&self) -> (r: String) ensures r@ == title_case(self.hv());
+}
+impl HeckCase for String {
+    open spec fn hv(&self) -> Seq<char> { self@ }
+    #[verifier::external_body] fn to_lower_camel_case(&self) -> (r: String) { unimplemented!() }
+    #[verifier::external_body] fn to_upper_camel_case(&self) -> (r: String) { unimplemented!() }
+    #[verifier::external_body] fn to_kebab_case(&self) -> (r: String) { unimplemented!() }
+    #[verifier::external_body] fn to_snake_case(&self) -> (r: String) { unimplemented!() }
+    #[verifier::external_body] fn to_shouty_snake_case(&self) -> (r: String) { unimplemented!() }
+    #[verifier::external_body] fn to_title_case(&self) -> (r: String) { unimplemented!() }
+}
+// each transformer computes the mapping its name states (trait-level contract: r@ == self.tr(str@))
+impl Transform for Camelize {
+    open spec fn tr(&self, s: Seq<char>) -> Seq<char> { camel(s) }
+    //@@ fn src/marker/transformer/camelize.rs :: impl Transform for Camelize / fn transform
+}
+impl Transform for Dasherize {
+    open spec fn tr(&self, s: Seq<char>) -> Seq<char> { kebab(s) }
+    //@@ fn src/marker/transformer/dasherize.rs :: impl Transform for Dasherize / fn transform
+}
+impl Transform for Lowercase {
+    open spec fn tr(&self, s: Seq<char>) -> Seq<char> { lowerc(s) }
+    //@@ fn src/marker/transformer/lowercase.rs :: impl Transform for Lowercase / fn transform
+}
+impl Transform for Underscorize {
+    open spec fn tr(&self, s: Seq<char>) -> Seq<char> { snake(s) }
+    //@@ fn src/marker/transformer/underscorize.rs :: impl Transform for Underscorize / fn transform
+}
+impl Transform for Uppercase {
+    open spec fn tr(&self, s: Seq<char>) -> Seq<char> { upperc(s) }
+    //@@ fn src/marker/transformer/uppercase.rs :: impl Transform for Uppercase / fn transform
+}
+impl Transform for Replace {
+    open spec fn tr(&self, s: Seq<char>) -> Seq<char> { replaced(s, self.something@, self.with@) }
+    //@@ fn src/marker/transformer/replace.rs :: impl Transform for Replace / fn transform
+    //@| outline `str.replace(self.something.as_str(), self.with.as_str())` => `outl_replace_tr(&str, self.something.as_str(), self.with.as_str())`
+}
 impl Transform for Slice { open spec fn tr(&self, s: Seq<char>) -> Seq<char> { sliced(s, self.from, self.to) } #[verifier::external_body] fn transform(&self, str: String) -> (r: String) { unimplemented!() } }
 impl Replace {
     //@@ fn src/marker/transformer/replace.rs :: impl Replace / fn new -> r
